@@ -241,8 +241,9 @@ func runC11(ctx *core.Ctx, idx int) *core.Result {
 	res := &core.Result{}
 	r := ctx.Rand("c11", idx)
 	p := c11Patches[idx%len(c11Patches)]
-	pathP, pn := c11P, "foo"
+	pathP, pn, qn := c11P, "foo", "bar"
 	if (idx/len(c11Patches))%3 == 1 {
+		qn = "v0"
 		// import paths whose last element looks like a version: "example.com/api/core/v1" is package v1
 		pathP, pn = "example.com/api/core/v1", "v1"
 		p = c11Variant(p, pathP, "example.com/api/apps/v0", "v1", "v0")
@@ -251,7 +252,7 @@ func runC11(ctx *core.Ctx, idx int) *core.Result {
 	var extraNames []map[string]string
 	for f := 0; f < 4; f++ {
 		// form of the affected import in the file
-		form := []string{"unnamed", "named-f", "named-foo", "absent", "unnamed", "named-f"}[r.Intn(6)]
+		form := []string{"unnamed", "named-f", "named-foo", "absent", "unnamed", "named-f", "named-like-new-path"}[r.Intn(7)]
 		var specs []impSpec
 		name := pn
 		switch form {
@@ -262,6 +263,10 @@ func runC11(ctx *core.Ctx, idx int) *core.Result {
 			name = "f"
 		case "named-foo":
 			specs = append(specs, impSpec{pn, pathP})
+		case "named-like-new-path":
+			// the file's name for the old path is the last element of the new path: a captured name stays a name
+			specs = append(specs, impSpec{qn, pathP})
+			name = qn
 		}
 		extraName := map[string]string{}
 		for _, ep := range p.Extra {
@@ -366,7 +371,7 @@ func runC11(ctx *core.Ctx, idx int) *core.Result {
 			}
 			res.Ob("applied:"+pnames[pi], 1)
 			// what the file calls the affected import
-			fileName := map[string]string{"unnamed": "", "named-f": "f", "named-foo": pn}[forms[i]]
+			fileName := map[string]string{"unnamed": "", "named-f": "f", "named-foo": pn, "named-like-new-path": qn}[forms[i]]
 			resolve := func(s impSpec) impSpec {
 				if s.Name == "$" {
 					if en, ok := extraNames[i][s.Path]; ok {
